@@ -66,7 +66,13 @@ func genTable(conc bool) func(r *prng) *plan {
 			case 11, 12, 13:
 				p.Ops = append(p.Ops, opSpec{K: "beh", N: []int64{node, int64(r.intn(10))}})
 			case 14, 15:
-				p.Ops = append(p.Ops, opSpec{K: "wait", N: []int64{int64(200 + r.intn(12000))}})
+				ms := int64(200 + r.intn(12000))
+				if r.chance(2) {
+					// a long quiet stretch (the periodic refresh, 30 min, comes due on its own; hundreds of
+					// revalidation rounds): virtual time makes it cheap
+					ms = int64(20+r.intn(40)) * 60_000
+				}
+				p.Ops = append(p.Ops, opSpec{K: "wait", N: []int64{ms}})
 			case 16, 17, 18:
 				if r.chance(25) {
 					// a run of consecutive fruitless queries against one node
@@ -655,6 +661,9 @@ func (ts *tableSim) exec(op opSpec) opRet {
 		ts.beh[n.ID()] = int(op.n(1))
 		return opRet{node: n}
 	case "wait":
+		if op.n(0) >= 1_200_000 {
+			w.probe("long_quiet_stretch")
+		}
 		w.runFor(time.Duration(op.n(0)) * time.Millisecond)
 		w.op("wait %dms: %d pings answered", op.n(0), len(ts.pings))
 		w.abstract("wait pings=%d", len(ts.pings))
